@@ -10,11 +10,12 @@ CHUNK = 8  # histories are heavy terms (a dump of tree and file after every op):
 CASE_IMPORTS = "From GV Require Import Prelude.Base Model.WsX Model.WsXCheck.\nFrom GV Require Model.WsT Model.WsTCheck."  # typed terms are fully qualified
 ALLOWED_AXIOMS: list = []
 REFUTED = []
-PARTIAL = ["C09_step_frame (unconditional footprint; for Move/Reopen the sharp footprint needs Rep: C09_step_frame_rep / C09_step_frame_run)", "C09T_types_frame / C09T_links_frame / C09T_reopen_file_identity (typed layer Model/WsT.v, unconditional: type nodes outside the type footprint and Type links of other entities are identical; close + open writes nothing)", "C09T_reopen_identity"]
+PARTIAL = ["C09_step_frame (unconditional footprint; for Move/Reopen the sharp footprint needs Rep: C09_step_frame_rep / C09_step_frame_run)", "C09T_types_frame / C09T_links_frame / C09T_reopen_file_identity (typed layer Model/WsT.v, unconditional: type nodes outside the type footprint and Type links of other entities are identical; close + open writes nothing)", "C09T_reopen_identity", "C09_copy_x_shape_run / C09_copy_sub_shape_run (a copy has the shape of its source in every state reached by a fresh world history; premises well_kinded / pgs_ok derived by C09_well_kinded_run / C09_pgs_ok_run)", "C09T_reopen_file_identity is definitional (the typed layer's close writes nothing by construction; the close-time walk and sweep are in the X model: C09_step_frame_rep)"]
 LEVEL_TEXT = ("Unbounded Coq frame theorems: for EVERY state and EVERY single operation, each flat node outside the operation's footprint (target, parents left/joined, nodes created/deleted, "
               "swept dead nodes) is identical before and after, and the Root link is never rewritten (C09_step_frame, C09_step_rootlink); in every state reached by a fresh history a move rewrites "
-              "only the two parents' child lists and close+open rewrites nothing except deleting dead groups (C09_step_frame_run). Types and the project header are outside the Coq model: "
-              "the oracle digests every stored node (entities, types, header) of the real file before and after each op.")
+              "only the two parents' child lists and close+open rewrites nothing except deleting dead groups (C09_step_frame_run). Types are modelled in the typed layer Model/WsT.v (C09T_*: type nodes outside the type footprint and other entities' Type links are identical); "
+              "the project header, other entity classes and concatenated groups are outside the Coq model: the oracle digests every stored node (entities, types, header) of the real file "
+              "before and after each operation of the X, drillhole-group and extended histories (frame oracle: an existing node may change only if it is the target or a parent it leaves / joins).")
 TRUSTED = [
     "Coq 8.16.1 kernel + vm_compute (refutation witnesses, correspondence evaluation); Print Assumptions: closed under the global context for every theorem",
     "hand-written model coq/theories/Model/WsX.v (memory tree + geoh5 file as a link graph with addresses; property groups; copies) of Workspace.{create_entity, register, save_entity, update_attribute, remove_entity, remove_recursively, remove_children, remove_none_referents, close, open/fetch_or_create_root/fetch_children/load_entity, copy_to_parent, copy_property_groups, add_or_update_property_group}, ObjectBase.{add_data_to_group, find_or_create_property_group, remove_data_from_groups, copy}, Group.copy, Data.copy, PropertyGroup.{add_properties, remove_properties}, Entity.parent setter, EntityContainer/ObjectBase.{add_children, remove_children}, H5Writer.{save_entity, write_entity, write_to_parent, remove_child, remove_entity, update_field/write_attributes/write_array_attribute/write_data_values}, H5Reader.{fetch_attributes, fetch_children}; tied to the code by comparing, after EVERY operation of generated histories, the live tree and a raw h5py dump of the file with the model (vm_compute)",
